@@ -42,8 +42,10 @@ func (self *Interpreter) importItem(node ast.AnalyzedImport) *value.Interrupt {
 		}
 
 		for _, importItem := range node.ToImport {
+			// the importer sees the exporting module's own cell: an imported global is shared, not copied
+			// (the VM reads and writes the one global of the defining module)
 			val := self.modules[node.FromModule.Ident()].scopes[0][importItem.Ident.Ident()]
-			self.addVar(importItem.Ident.Ident(), *val)
+			self.currentModule.scopes[len(self.currentModule.scopes)-1][importItem.Ident.Ident()] = val
 		}
 
 		return nil
